@@ -312,7 +312,7 @@ fn response_of_delivery(log: &[Ev], k: usize) -> Option<Vec<String>> {
 pub const HORIZON: usize = 400;
 
 pub fn script_json(s: &Script) -> J {
-    json::obj(vec![("name", json::s(s.name.clone())), ("lines", J::Arr(s.lines.iter().map(|l| json::obj(vec![("text", json::s(l.text.clone())), ("guard", json::s(match l.guard { Guard::Now => "now", Guard::WhenAnswered => "when-answered" }))])).collect()))])
+    json::obj(vec![("name", json::s(s.name.clone())), ("lines", J::Arr(s.lines.iter().map(|l| json::obj(vec![("text", json::s(l.text.clone())), ("guard", json::s(match l.guard { Guard::Now => "now".to_string(), Guard::WhenAnswered => "when-answered".to_string(), Guard::AfterInfoLines(n) => format!("after-info-{}", n) }))])).collect()))])
 }
 
 pub fn script_from_json(j: &J) -> Result<Script, String> {
@@ -320,7 +320,8 @@ pub fn script_from_json(j: &J) -> Result<Script, String> {
     let mut lines = vec![];
     for l in j.get("lines").and_then(|x| x.as_arr()).ok_or("lines")? {
         let text = l.get("text").and_then(|x| x.as_str()).ok_or("text")?;
-        let guard = if l.get("guard").and_then(|x| x.as_str()) == Some("when-answered") { Guard::WhenAnswered } else { Guard::Now };
+        let gs = l.get("guard").and_then(|x| x.as_str()).unwrap_or("now");
+        let guard = if gs == "when-answered" { Guard::WhenAnswered } else if let Some(n) = gs.strip_prefix("after-info-") { Guard::AfterInfoLines(n.parse().unwrap_or(1)) } else { Guard::Now };
         lines.push(line(text, guard));
     }
     Ok(Script { name, lines })
@@ -370,6 +371,51 @@ pub fn run_shard(tier: &str, shard: usize, nshards: usize) -> Acc {
     acc
 }
 
+/// Long-running sessions without interleaving exploration (native speed, the engine's threads share the caller's
+/// sequential hook context): deep `go depth N` on tiny roots where dozens of iterations complete, followed by more
+/// commands. The session must survive: every go answered, isready answered, uci_talk returns Ok.
+pub fn deep_sessions(tier: &str) -> Acc {
+    use crate::props::c12::uci_seq;
+    let roots = ["8/8/8/4k3/8/8/4K3/8 w - - 0 1", "k7/2K5/8/8/8/8/8/8 w - - 0 1", "k7/8/8/p1p1p1p1/P1P1P1P1/8/8/K7 w - - 0 1", "8/8/4k3/8/8/4K3/8/8 b - - 0 1"];
+    let depths: Vec<u32> = if tier == "quick" { vec![40, 64, 66, 100, 255] } else { vec![33, 34, 40, 63, 64, 65, 66, 67, 100, 128, 200, 255] };
+    let mut cases = vec![];
+    for r in roots {
+        for d in &depths {
+            cases.push((r.to_string(), *d));
+        }
+    }
+    par_items(&cases, &|_, (root, d), acc| {
+        let script = vec![format!("position fen {}", root), format!("go depth {}", d), "wait".to_string(), "isready".to_string(), format!("position fen {}", root), "go depth 2".to_string(), "wait".to_string(), "isready".to_string(), "quit".to_string()];
+        acc.states += 1;
+        acc.evaluations += 1;
+        let mut ctx = crate::verif_hooks::SeqCtx::new();
+        ctx.input = script.clone().into();
+        ctx.watchdog = if tier == "quick" { 1_500_000 } else { 20_000_000 };
+        let (r, ctx) = crate::verif_hooks::in_seq(ctx, || crate::bind::guarded(|| crate::uci::uci_talk()));
+        let t = ctx.transcript;
+        let key = format!("deep|{}|{}", root, d);
+        let replay = json::obj(vec![("kind", json::s("c14-deep")), ("root", json::s(root.clone())), ("depth", json::i(*d))]);
+        let _ = uci_seq;
+        match r {
+            Err(p) => acc.violation(key, format!("`go depth {}` on {}: the session died: {}", d, root, p), replay),
+            Ok(Err(e)) => acc.violation(key, format!("`go depth {}` on {}: uci_talk returned an error: {}", d, root, e), replay),
+            Ok(Ok(())) => {
+                let bm = t.iter().filter(|l| l.starts_with("bestmove")).count();
+                let ro = t.iter().filter(|l| *l == "readyok").count();
+                let errs = t.iter().filter(|l| l.starts_with("error:")).count();
+                let deepest = t.iter().filter_map(|l| l.strip_prefix("info depth ")).filter_map(|x| x.trim().parse::<u64>().ok()).max().unwrap_or(0);
+                acc.max("deepest iteration completed in a deep session", deepest);
+                acc.transitions += 1;
+                if bm != 2 || ro != 2 || errs != 0 {
+                    acc.violation(key, format!("`go depth {}` on {}: {} bestmove, {} readyok, {} error lines (expected 2, 2, 0)", d, root, bm, ro, errs), replay);
+                } else {
+                    acc.outcome(format!("deep session ok, iterations {}", if deepest >= 64 { ">=64" } else { "<64 (poll cap)" }));
+                }
+            }
+        }
+    })
+}
+
 pub fn run(tier: &str, seed: i64) -> Outcome {
     let nshards = 16;
     let args: Vec<Vec<String>> = (0..nshards).map(|i| vec!["C14".to_string(), tier.to_string(), seed.to_string(), "--worker".to_string(), format!("--shard={}/{}", i, nshards)]).collect();
@@ -378,6 +424,11 @@ pub fn run(tier: &str, seed: i64) -> Outcome {
     let n = all_scripts(tier).len();
     let bound = if tier == "quick" { 2 } else { 3 };
     let reports = vec![SpaceReport { name: format!("E5: {} scripts (all words of length <= {} over the 9-command alphabet after `position P0`, eager and reactive GUI, plus 10 scenario scripts) x all interleavings with deviation cost <= {}", n, if tier == "quick" { 3 } else { 4 }, bound), states: acc.states, exhaustive: !acc.counts.contains_key("scripts whose exploration hit the execution cap (not exhaustive for them)"), note: format!("[{:.1}s, 16 worker processes]", t0.elapsed().as_secs_f64()) }];
+    let (mut acc, mut reports) = (acc, reports);
+    let t1 = std::time::Instant::now();
+    let deep = deep_sessions(tier);
+    reports.push(SpaceReport { name: "deep sessions: `position tiny; go depth N; wait; isready; position; go depth 2; wait; isready; quit` for N up to 255 on 4 tiny roots, sequential schedule at native speed".into(), states: deep.states, exhaustive: true, note: format!("[{:.1}s]", t1.elapsed().as_secs_f64()) });
+    acc.merge(deep);
     let mut out = Outcome::new(acc, reports, "every script runs the real uci_talk with its search and timer threads on OS threads serialised by a baton; schedule points are the hooked flag accesses, lock acquisitions, spawns, joins, stdin reads, node-entry polls and prints; the GUI is a pseudo-thread; iterative deviation bounding (preemption of a runnable thread or running a poller ahead of a runnable non-poller costs 1) explores every schedule within the bound; each execution is judged on its ordered transcript; a failing schedule is replayed twice and must reproduce the identical transcript");
     out.traces_validated = out.acc.evaluations;
     out.exhaustive = out.spaces[0].exhaustive;
@@ -390,6 +441,9 @@ pub fn run(tier: &str, seed: i64) -> Outcome {
 }
 
 pub fn replay(j: &J, oracle_fn: &dyn Fn(&Exec) -> Option<String>) -> Result<Acc, String> {
+    if j.get("kind").and_then(|x| x.as_str()) == Some("c14-deep") {
+        return Ok(deep_sessions("quick"));
+    }
     let s = script_from_json(j.get("script").ok_or("script")?)?;
     let schedule: Vec<usize> = j.get("schedule").and_then(|x| x.as_arr()).ok_or("schedule")?.iter().map(|c| c.as_i().unwrap_or(0) as usize).collect();
     let mut acc = Acc::new();
